@@ -5,7 +5,7 @@ from .. import stages, worker
 from . import common
 from . import C06 as _c06
 
-SITE_KINDS = {"module-level-mutable", "class-level-mutable", "threading", "global-statement"}
+SITE_KINDS = {"module-level-mutable", "class-level-mutable", "threading", "global-statement", "process-wide-setter"}
 RULE = ("histories of up to 4 library calls in one fresh process: generations of other inputs / frameworks / layouts, calls "
         "that raise inside code generation (a key without word characters), and re-renderings of a registry built by an "
         "earlier call (same unicode option; nested only for tree-shaped graphs) — each call's output compared with the same "
